@@ -239,6 +239,54 @@ def r15_2(ctx, counts: dict[str, int]) -> RuleResult:
     return res
 
 
+def r15_4(ctx, counts) -> RuleResult:
+    """NaN is one key: the duplicate error is raised on the SECOND NaN key, not the first"""
+    from ..engine.cfg import CFG
+    from ..engine.dataflow import branch_facts
+    model: Model = ctx.model
+    res = RuleResult(
+        'R15.4', 'NAN-KEY-GUARD-POLARITY',
+        'XPathMap keeps the NaN key (same-key: NaN equals NaN) in a separate state, initially '
+        'False. Every `raise …error("XQDY0137")` that depends on that state is reached only when '
+        'the state already holds a key — the branch facts at the raise contain "state is not '
+        'False" — in each of the sibling builders (__init__ and _evaluate). With the polarity '
+        'inverted a map with a single NaN key cannot be built at all.')
+    cls = model.find_class('XPathMap')
+    n = 0
+    for name in ('__init__', '_evaluate'):
+        f = cls.methods.get(name)
+        if f is None:
+            raise AnalysisError(f'XPathMap.{name} vanished')
+        cfg = CFG(f.node)
+        facts = branch_facts(cfg)
+        for nd in cfg.nodes:
+            if nd.kind != 'stmt' or not isinstance(nd.ast, ast.Raise):
+                continue
+            if 'XQDY0137' not in stmt_text(nd.ast):
+                continue
+            state = [fa for fa in facts[nd.id] if 'nan_key' in fa]
+            if not state:
+                continue            # the ordinary duplicate test `k in _map`
+            n += 1
+            seen = any(fa.startswith('-') and fa.endswith(' is False') for fa in state) or \
+                any(fa.startswith('+') and not fa.endswith(' is False') and ' is ' not in fa
+                    for fa in state)
+            res.instances.append(f'{f.key}: XQDY0137 under {state}: raised when a NaN key was '
+                                 f'already stored={seen}')
+            if seen:
+                res.ok()
+            else:
+                res.fail(finding('R15.4', f, nd.ast, 'NaN duplicate guard inverted',
+                                 f'`{stmt_text(nd.ast)[:50]}` is reached under {state}: the '
+                                 f'duplicate-key error fires for the first NaN key (the state '
+                                 f'still has its initial value False), so map{{xs:double("NaN"): 1}} '
+                                 f'cannot be built; the sibling builder tests the opposite'))
+    counts['nan_key_guards'] = n
+    if n < 2:
+        raise AnalysisError(f'only {n} NaN-key duplicate guards located in XPathMap')
+    return res
+
+
 def run(ctx) -> dict:
     counts: dict[str, int] = {}
     results = [r15_1(ctx, counts), r15_2(ctx, counts)]
@@ -250,6 +298,7 @@ def run(ctx) -> dict:
     if len(r3.instances) < 3:
         raise AnalysisError(f'R15.3: only {len(r3.instances)} functions with one-shot bindings')
     results.append(r3)
+    results.append(r15_4(ctx, counts))
     return {
         'results': results, 'counts': counts,
         'explanation':
